@@ -338,8 +338,8 @@ class MetricsHandler(BaseHTTPRequestHandler):
     def do_GET(self) -> None:
         # Prepare parameters
         registry = self.registry
-        accept_header = self.headers.get('Accept')
-        accept_encoding_header = self.headers.get('Accept-Encoding')
+        accept_header = ','.join(self.headers.get_all('Accept', []))
+        accept_encoding_header = ','.join(self.headers.get_all('Accept-Encoding', []))
         params = parse_qs(urlparse(self.path).query)
         # Bake output
         status, headers, output = _bake_output(registry, accept_header, accept_encoding_header, params, False)
